@@ -95,6 +95,12 @@ def run(tier, rep):
             k = 2 if sh in NAMED.values() else 1
             sel += [o for o in topo if o["shape"] == sh][:k] + [o for o in non if o["shape"] == sh][:k]
         orders = sel
+    else:
+        # thorough: every shape with up to four topological and four non-topological build orders (seeded choice among the 24)
+        topo = [o for o in orders if o["linkable"]]
+        non = [o for o in orders if not o["linkable"]]
+        rnd.shuffle(topo); rnd.shuffle(non)
+        orders = [o for sh in all_shapes for o in [x for x in topo if x["shape"] == sh][:4] + [x for x in non if x["shape"] == sh][:4]]
     root = workdir("c14")
     whole_cache = {}
     go_recs = []
